@@ -1,5 +1,5 @@
 """C10 — MPS truncation and canonical form: structural clauses."""
-from ..rules import drivers, canon
+from ..rules import kernels, drivers, canon
 
 META = {
     "title": "MPS truncation and canonical form honour their contract",
@@ -30,3 +30,4 @@ def check(ctx):
     ctx.floor("CENTER", 8)
     canon.gauge_moves(ctx)
     drivers.sweep_boundaries(ctx)
+    kernels.truncation_cutoff(ctx)
